@@ -32,8 +32,131 @@ class Variant:
         self.note = note
 
 
+def global_twin_overlay(root=None) -> Dict[str, str]:
+    """Whole-repository neutral twin: every top-level statement of every module is replaced by its
+    ast.unparse form (layout, comments inside statements, quote style, parenthesisation all change;
+    the ###{standalone markers, which live between statements, stay)."""
+    import ast
+    root = root or repo_root()
+    out: Dict[str, str] = {}
+    for p in sorted((root / 'lark').rglob('*.py')):
+        rel = p.relative_to(root).as_posix()
+        if '__pycache__' in rel or '/__pyinstaller/' in rel:
+            continue
+        src = p.read_text(encoding='utf8')
+        lines = src.splitlines(True)
+        try:
+            tree = ast.parse(src)
+        except SyntaxError:
+            continue
+        buf: List[str] = []
+        cur = 1
+        for node in tree.body:
+            start = min([node.lineno] + [d.lineno for d in getattr(node, 'decorator_list', [])])
+            end = node.end_lineno
+            buf.extend(lines[cur - 1:start - 1])
+            seg = ''.join(lines[start - 1:end])
+            buf.append(seg if '###' in seg else ast.unparse(node) + '\n')
+            cur = end + 1
+        buf.extend(lines[cur - 1:])
+        out[rel] = ''.join(buf)
+    return out
+
+
+def global_rename_overlay(root=None) -> Dict[str, str]:
+    """Whole-repository neutral twin: every local variable (not parameters, not globals) of every function that
+    has no nested function/lambda/class is renamed consistently (x -> x_r) and the function re-emitted with
+    ast.unparse.  Rules must not depend on what locals are called."""
+    import ast
+    import copy as _copy
+    root = root or repo_root()
+
+    class Ren(ast.NodeTransformer):
+        def __init__(self, names):
+            self.names = names
+
+        def visit_Name(self, n):
+            if n.id in self.names:
+                n.id = n.id + '_r'
+            return n
+
+        def visit_ExceptHandler(self, n):
+            if n.name in self.names:
+                n.name = n.name + '_r'
+            self.generic_visit(n)
+            return n
+
+    def locals_of(fn):
+        a = fn.args
+        params = {x.arg for x in a.posonlyargs + a.args + a.kwonlyargs}
+        if a.vararg:
+            params.add(a.vararg.arg)
+        if a.kwarg:
+            params.add(a.kwarg.arg)
+        names, glob = set(), set()
+        for n in ast.walk(fn):
+            if isinstance(n, (ast.Global, ast.Nonlocal)):
+                glob |= set(n.names)
+            if isinstance(n, ast.Name) and isinstance(n.ctx, ast.Store):
+                names.add(n.id)
+            if isinstance(n, ast.ExceptHandler) and n.name:
+                names.add(n.name)
+            if isinstance(n, (ast.Import, ast.ImportFrom)):
+                for al in n.names:
+                    glob.add((al.asname or al.name).split('.')[0])
+        return names - params - glob
+
+    out: Dict[str, str] = {}
+    for p in sorted((root / 'lark').rglob('*.py')):
+        rel = p.relative_to(root).as_posix()
+        if '__pycache__' in rel or '/__pyinstaller/' in rel:
+            continue
+        src = p.read_text(encoding='utf8')
+        lines = src.splitlines(True)
+        try:
+            tree = ast.parse(src)
+        except SyntaxError:
+            continue
+        nested = set()
+        for node in ast.walk(tree):
+            if isinstance(node, (ast.FunctionDef, ast.Lambda)):
+                for x in ast.walk(node):
+                    if x is not node and isinstance(x, ast.FunctionDef):
+                        nested.add(id(x))
+        repl = []
+        for fn in ast.walk(tree):
+            if not isinstance(fn, ast.FunctionDef) or id(fn) in nested:
+                continue
+            if any(x is not fn and isinstance(x, (ast.FunctionDef, ast.Lambda, ast.ClassDef)) for x in ast.walk(fn)):
+                continue
+            names = locals_of(fn)
+            if not names:
+                continue
+            start = min([fn.lineno] + [d.lineno for d in fn.decorator_list])
+            end = fn.end_lineno
+            if '###' in ''.join(lines[start - 1:end]):
+                continue
+            indent = len(lines[fn.lineno - 1]) - len(lines[fn.lineno - 1].lstrip())
+            text = ast.unparse(Ren(names).visit(_copy.deepcopy(fn)))
+            text = ''.join((' ' * indent + l if l.strip() else l) for l in text.splitlines(True)) + '\n'
+            repl.append((start, end, text))
+        for start, end, text in sorted(repl, reverse=True):
+            lines[start - 1:end] = [text]
+        new = ''.join(lines)
+        try:
+            ast.parse(new)
+        except SyntaxError:
+            continue
+        out[rel] = new
+    return out
+
+
 def overlay_for(v: Variant, root=None) -> Optional[Dict[str, str]]:
     root = root or repo_root()
+    if getattr(v, 'global_twin', False) == 'rename':
+        return global_rename_overlay(root)
+    if getattr(v, 'global_twin', False):
+        return global_twin_overlay(root)
     out: Dict[str, str] = {}
     for rel, old, new in v.edits:
         src = out.get(rel)
@@ -108,6 +231,14 @@ def variants_for(prop: str, tier: str) -> List[Variant]:
     for v in variants_table.VARIANTS:
         if v.rule in rules and (tier == 'thorough' or v.quick):
             out.append(v)
+    if tier == 'thorough':
+        for r in rules:
+            g = Variant(r, 'global-twin-statementwise-unparse', [], expect='silent')
+            g.global_twin = True
+            out.append(g)
+            g2 = Variant(r, 'global-twin-rename-locals', [], expect='silent')
+            g2.global_twin = 'rename'
+            out.append(g2)
     return out
 
 
